@@ -10,6 +10,6 @@ cp /verif/known_findings.json $v/
 for p in "$@"; do
   timeout 120 $bin check $p --repo $d --verif $v --no-controls > $v/out.txt 2>&1; rc=$?
   [ $rc -ge 124 ] && echo "  TIMEOUT property=$p"
-  grep -E "FAILED|UNDECIDED|^gmsa:" $v/out.txt | awk '/^gmsa:/{print; next} {n++; if (n<=4) print}' | cut -c1-${W:-400}
+  grep -E "ANYOF|FAILED|UNDECIDED|^gmsa:" $v/out.txt | awk '/^gmsa:/{print; next} {n++; if (n<=4) print}' | cut -c1-${W:-400}
 done
 rm -rf $d $v
